@@ -49,7 +49,31 @@ def api_lookup(ck):
         reqs.append(api.R("GET", "/robustirc/v1/%s/messages" % f, "e"))
     reqs.append(api.R("GET", "/robustirc/v1/{3}/messages", "a3"))
     line = "api lookup " + " ".join(ops + reqs)
-    res, out = api.run_go([line], wiring, "c17api", timeout=900)
+    # ---- the state machine lags behind the log (replay after a restart, slow apply, follower catching up): the apply gate of
+    # the driver holds FSM.Apply back while raft appends and commits.  Sessions 10 and 11 are created (and used) in the LOG only.
+    def hx(t): return api.hx(t)
+    POSTB = '{"Data":"PING lag","ClientMessageId":%d}'
+    lag, expect = list(api.setup_ops()), {}
+    def req(tok, want):
+        expect[len(lag)] = want
+        lag.append(tok)
+    lag += ["A:close", "E:10", "M:10:" + hx("NICK laga"), "M:10:" + hx("USER l 0 * :L"), "E:11", "M:11:" + hx("NICK lagb")]
+    for k in ("10", "11"):
+        for cred in ("a" + k, "a1", "l" + hx("x" * 256)):          # own secret, another live session's, garbage: all must be "not yet seen"
+            req(api.R("GET", "/robustirc/v1/{%s}/messages" % k, cred), "lagging")
+            req(api.R("POST", "/robustirc/v1/{%s:d}/message" % k, cred, "-", POSTB % (7000 + len(lag))), "lagging")
+            req(api.R("DELETE", "/robustirc/v1/{%s}" % k, cred, "-", '{"Quitmessage":"bye"}'), "lagging")
+    # the converse keeps the distinction honest: ids that really are dead answer "No such session" also while the FSM lags
+    req(api.R("GET", "/robustirc/v1/{3}/messages", "a3"), "dead")
+    req(api.R("DELETE", "/robustirc/v1/{3}", "a3", "-", '{"Quitmessage":"bye"}'), "dead")
+    req(api.R("GET", "/robustirc/v1/1/messages", "a1"), "dead")       # raft index 1 never was a session and lies below lastProcessed
+    lag.append("A:open")
+    req(api.R("GET", "/robustirc/v1/{10}/messages", "a10"), "live")
+    req(api.R("POST", "/robustirc/v1/{10:d}/message", "a10", "-", POSTB % 7999), "live")
+    req(api.R("GET", "/robustirc/v1/{11}/messages", "a1"), "refused")
+    req(api.R("DELETE", "/robustirc/v1/{11}", "a11", "-", '{"Quitmessage":"bye"}'), "live")
+    lagline = "api lag " + " ".join(lag)
+    res, out = api.run_go([line, lagline], wiring, "c17api", timeout=900)
     if res is None:
         ck.add_obligation(False, "API lookup probe ran")
         ck.violation("tie-broken:go-driver-api", {"what": "the API driver did not build/run against the current tree", "output": out[-3000:],
@@ -77,8 +101,42 @@ def api_lookup(ck):
     if int(last["status"]) != 404:
         ck.violation("c17:api:deleted-not-gone", {"what": "GET messages of a deleted session answered %s %s, expected 404" % (last["status"], last["class"]),
                                                   "cases": [line]}, concrete=True)
+    # ---- the lagging node
+    lobs = res[1][2:]
+    nl, dist = 0, {}
+    for i, want in sorted(expect.items()):
+        o = lobs[i] if i < len(lobs) else {}
+        if o.get("op") != "R" or "status" not in o:
+            ck.violation("tie-broken:go-driver-api", {"what": "lag scenario: op %d did not produce an observation: %s" % (i, o), "cases": [lagline],
+                                                      "obligation": "correspondence apidrv (C17 lookup on a lagging node)"}, concrete=False)
+            break
+        nl += 1
+        path, status, cls = api.unhx(o["p"]).decode("latin-1"), int(o["status"]), o["class"]
+        dist["%s/%s/%d" % (want, cls, status)] = dist.get("%s/%s/%d" % (want, cls, status), 0) + 1
+        if want == "lagging" and cls != "notyet":
+            minimal = [t for j, t in enumerate(lag) if j not in expect or j == i]
+            ck.violation("c17:api:live-session-reported-gone", {
+                "what": "%s %s for a session whose CreateSession entry is committed to the log but not yet applied (the state machine lags behind the log) was "
+                        "answered %d %s; the bridge treats 'No such session' as 'session gone' and gives a LIVE session up — expected 'Session not yet seen' "
+                        "(after the state machine caught up the same session is served)" % (o["m"], path, status, cls),
+                "cases": ["api lag " + " ".join(minimal)], "how_to_replay": "bin/check C17 (API lag scenario: ops A:close, E, M, R, A:open of harness/go/main/zz_verif_api_test.go)"},
+                concrete=True)
+            break
+        if want == "dead" and cls != "nosuch":
+            ck.violation("c17:api:deleted-not-gone", {"what": "%s %s for a dead id while the state machine lags answered %d %s, expected 404 'No such session'" % (o["m"], path, status, cls),
+                                                      "cases": [lagline]}, concrete=True)
+            break
+        if want == "live" and cls != "handled":
+            ck.violation("c17:api:live-session-refused-after-catch-up", {"what": "%s %s with the session's own secret after the state machine caught up answered %d %s" % (o["m"], path, status, cls),
+                                                                         "cases": [lagline]}, concrete=True)
+            break
+        if want == "refused" and cls == "handled":
+            ck.violation("c17:api:handled-without-secret", {"what": "%s %s handled with another session's secret" % (o["m"], path), "cases": [lagline]}, concrete=True)
+            break
+    ck.cov["api_lag_requests"] = nl
+    ck.cov["api_lag_distribution"] = dist
     ck.cov["api_lookup_requests"] = n
-    ck.cov["evaluations"] = ck.cov.get("evaluations", 0) + n
+    ck.cov["evaluations"] = ck.cov.get("evaluations", 0) + n + nl
 
 
 def run(ck, replay):
